@@ -133,6 +133,7 @@ func (node *FamilyNode) addChild(value string) *ChildNode {
 func (node *FamilyNode) AddChild(individual *IndividualNode) *ChildNode {
 	n := newChildNodeWithIndividual(node, individual)
 	node.AddNode(n)
+	node.resetIndividualCaches()
 
 	return n
 }
